@@ -743,6 +743,28 @@ Proof.
   apply spot_eqb_eq in E. subst. exfalso. apply Hn. left. reflexivity.
 Qed.
 
+Lemma get_set_cell_same : forall d q c v, inb d q c = true -> get dflt (set_cell d (q, c) v) q c = v.
+Proof. intros. unfold set_cell. rewrite get_mapi2, H, spot_eqb_refl. reflexivity. Qed.
+
+Lemma inb_update_cells : forall spots vals d q c, inb (update_cells d spots vals) q c = inb d q c.
+Proof.
+  induction spots; intros; simpl; auto. destruct vals; auto.
+  rewrite IHspots. unfold set_cell. apply inb_mapi2.
+Qed.
+
+(* ... and the k-th unknown cell receives the k-th component of the guess (the executable counterpart of [upd]) *)
+Theorem update_cells_at : forall spots vals d k q c,
+  NoDup spots -> length vals = length spots -> nth_error spots k = Some (q, c) -> inb d q c = true ->
+  get dflt (update_cells d spots vals) q c = nth k vals dflt.
+Proof.
+  induction spots as [| s ss IH]; intros vals d k q c ND L Hk Hin.
+  - destruct k; discriminate.
+  - destruct vals as [| v vs]; [discriminate |]. simpl in L. inversion ND; subst.
+    destruct k; simpl in Hk |- *.
+    + inversion Hk; subst. rewrite update_cells_outside by auto. apply get_set_cell_same. auto.
+    + apply IH; auto. unfold set_cell. rewrite inb_mapi2. auto.
+Qed.
+
 End DataLemmas.
 
 (* a row that no frame's solver owns, that is not exogenized and is not an unanticipated-shock row keeps its input
